@@ -26,7 +26,7 @@ def t_bad_result_pickle(rng):
 
 
 def t_bad_arg_pickle(rng):
-    return {"k": "ok", "x": 1, "arg": ["bad_pickle", rng.choice(["ZeroDivisionError", "ValueError", "SystemExit", "struct.error", "IndexError", "BrokenPipeError"])]}
+    return {"k": "ok", "x": 1, "arg": ["bad_pickle", rng.choice(["ZeroDivisionError", "ValueError", "SystemExit", "struct.error", "IndexError", "BrokenPipeError", "ConnectionResetError", "EBADF", "closed_socket", "TimeoutError"])]}
 
 
 def t_slow_pickle(rng, d=None):
@@ -294,7 +294,10 @@ def g_route(rng):
     return prog, {"gen": "g_route", "kind": kind, "kw": kw, "nthreads": nthreads}
 
 
-def g_contain(rng):
+PICKLE_EXCS = ["ZeroDivisionError", "ValueError", "SystemExit", "struct.error", "IndexError", "BrokenPipeError", "ConnectionResetError", "EBADF", "closed_socket", "TimeoutError"]
+
+
+def g_contain(rng, force_pickle_exc=None, chain=None):
     """C04: task-level failures among good tasks, incl. a full call queue."""
     kind = "reusable" if rng.random() < 0.4 else "plain"
     mw = rng.randint(1, 4)
@@ -323,11 +326,17 @@ def g_contain(rng):
         # more unsendable tasks in a row than the call queue has slots: a leaked slot would exhaust it
         slots = (2 * mw + 1) if kind == "plain" else 33
         bads += [t_bad_arg_pickle(rng) for _ in range(slots + 3)]
+    if force_pickle_exc:
+        for _ in range(rng.randint(1, 2)):
+            bads.append({"k": "ok", "x": 1, "arg": ["bad_pickle", force_pickle_exc]})
     for b in bads:
         tasks.insert(rng.randint(0, len(tasks)), ("bad", b))
+    if chain is None:
+        chain = rng.random() < 0.3
     ops = [{"op": "new", "ex": "e", "kind": kind, "kw": kw}]
     for cls, t in tasks:
-        ops.append({"op": "submit", "ex": "e", "task": t, "raising_cb": rng.random() < 0.08})
+        # chain: the joblib pattern - the done-callback of a future (also of one that fails in the feeder thread) submits the next task
+        ops.append({"op": "submit", "ex": "e", "task": t, "raising_cb": rng.random() < 0.08, "chain_cb": bool(chain) and (cls == "bad" or rng.random() < 0.15)})
         if rng.random() < 0.05:
             ops.append({"op": "sleep", "d": 0.01})
     ops += [
@@ -340,7 +349,7 @@ def g_contain(rng):
     if rng.random() < 0.5:
         ops.append({"op": "shutdown", "ex": "e", "wait": True})
     prog = {"threads": [ops], "end": "return"}
-    return prog, {"gen": "g_contain", "kind": kind, "kw": kw, "flood": flood, "n_bad": len(bads)}
+    return prog, {"gen": "g_contain", "kind": kind, "kw": kw, "flood": flood, "n_bad": len(bads), "chain": bool(chain), "forced_pickle_exc": force_pickle_exc}
 
 
 def g_drain(rng):
@@ -488,6 +497,12 @@ def g_kill(rng, family=None):
         depth = max(depth, 1)
         ops.append({"op": "submit", "ex": "e", "task": {"k": "nested", "kind": "plain", "kw": {"max_workers": 2, "timeout": 10},
                                                          "sub": [{"k": "spawn_subprocess", "hang": 120}, {"k": "spawn_subprocess", "hang": 120}], "then": "hang"}})
+    if family == "churn":
+        # every worker owns a long-lived helper and a stream of short-lived subprocesses that vanish during the kill sweep
+        mw = kw["max_workers"] = rng.randint(2, 3)
+        n_long = 0
+        for _ in range(mw):
+            ops.append({"op": "submit", "ex": "e", "task": {"k": "churn_subprocess", "n": rng.choice([8, 12, 16])}})
     for i in range(n_long):
         r = rng.random()
         if depth >= 1 and r < 0.5:
@@ -505,7 +520,7 @@ def g_kill(rng, family=None):
         ops.append({"op": "submit", "ex": "e", "task": rng.choice([t_ok(rng), {"k": "endless"}])})
     if rng.random() < 0.4:
         ops.append({"op": "cancel", "fut": "__recent__"})
-    ops.append({"op": "sleep", "d": rng.choice([0.0, 0.02, 0.3, 0.8, 1.5]) if family != "branching" else rng.choice([4.0, 5.0])})
+    ops.append({"op": "sleep", "d": rng.choice([0.0, 0.02, 0.3, 0.8, 1.5]) if family not in ("branching", "churn") else (rng.choice([4.0, 5.0]) if family == "branching" else rng.choice([1.5, 2.5]))})
     if family == "already_shutting_down" or (family is None and rng.random() < 0.15):
         ops.append({"op": "shutdown", "ex": "e", "wait": False})
         ops.append({"op": "sleep", "d": rng.choice([0.0, 0.05, 0.3])})
@@ -533,8 +548,31 @@ def g_kill(rng, family=None):
     return prog, {"gen": "g_kill", "kind": kind, "kw": kw, "depth": depth, "via": via, "family": family}
 
 
-def g_par(rng):
-    """C08: histories of submits, time-outs, respawns and resizes with saturating rendezvous batches."""
+def g_par(rng, family=None):
+    """C08: histories of submits, time-outs, respawns and resizes with saturating rendezvous batches.
+    family 'grow_while_respawning': a reusable executor whose workers idle out between slowly pickled jobs (the manager
+    thread keeps respawning them) is grown by get_reusable_executor while those jobs are in flight."""
+    if family == "grow_while_respawning":
+        mw = rng.randint(3, 7)
+        tmo = rng.choice([0.02, 0.05])
+        kw = {"max_workers": mw, "timeout": tmo}
+        ops = [{"op": "new", "ex": "e", "kind": "reusable", "kw": kw}]
+        grp = 0
+        cur = mw
+        for rnd in range(rng.randint(1, 3)):
+            for _ in range(rng.randint(2 * cur, 3 * cur)):
+                ops.append({"op": "submit", "ex": "e", "task": t_slow_pickle(rng, rng.choice([0.04, 0.08, 0.12]))})
+            if rng.random() < 0.5:
+                ops.append({"op": "sleep", "d": rng.choice([0.05, 0.2, 0.4])})
+            cur = min(8, cur + rng.randint(1, 2)) if cur < 8 else 8
+            ops.append({"op": "get_reusable", "ex": "e", "kw": dict(kw, max_workers=cur)})
+            ops.append({"op": "wait", "futs": "all"})
+            grp += 1
+            for i in range(cur):
+                ops.append({"op": "submit", "ex": "e", "task": {"k": "rendezvous", "n": cur, "grp": "g%d" % grp, "dir": "$RES", "patience": 20.0, "hold": 0.05}})
+            ops.append({"op": "wait", "futs": "all"})
+        ops += [{"op": "quiesce", "ex": ["e"]}, {"op": "shutdown", "ex": "e", "wait": True}]
+        return {"threads": [ops], "end": "return"}, {"gen": "g_par", "kind": "reusable", "kw": kw, "family": family}
     kind = "reusable" if rng.random() < 0.65 else "plain"
     mw = rng.randint(1, 8)
     tmo = rng.choice([None, 10, 0.05, 0.02]) if kind == "plain" else rng.choice([10, 0.05, 0.02])
@@ -868,9 +906,28 @@ def g_exitstatus(rng, full=False):
     return {"threads": [ops], "end": "return"}, {"gen": "g_exitstatus", "ctx": ctx, "n": len(ways)}
 
 
-def _lifecycle(rng):
+def _lifecycle(rng, how=None):
     kind = rng.choice(["plain", "plain", "reusable", "nested"])
-    how = rng.choice(["wait", "nowait", "with", "del", "killed", "broken", "timeout", "resized", "spawn_fails"])
+    how = how or rng.choice(["wait", "nowait", "with", "del", "killed", "broken", "broken_dropped", "timeout", "resized", "spawn_fails", "unused"])
+    if how == "unused":
+        # created and ended before the first submit: the manager thread never ran, nobody else closes what __init__ opened
+        k2 = rng.choice(["plain", "plain", "reusable"])
+        end = rng.choice(["wait", "nowait", "with", "del"] if k2 == "plain" else ["wait", "replaced", "replaced_kill"])
+        kw = {"max_workers": rng.randint(1, 3), "timeout": rng.choice([10, 20])}
+        body = [{"op": "new", "ex": "x", "kind": k2, "kw": kw}]
+        if end == "wait":
+            body.append({"op": "shutdown", "ex": "x", "wait": True})
+        elif end == "nowait":
+            body.append({"op": "shutdown", "ex": "x", "wait": False})
+        elif end == "with":
+            body = [body[0], {"op": "with", "ex": "x", "body": []}]
+        elif end == "del":
+            body.append({"op": "del", "ex": "x"})
+        else:
+            body.append({"op": "get_reusable", "ex": "x", "kw": dict(kw, timeout=kw["timeout"] + 5, **({"kill_workers": True} if end == "replaced_kill" else {}))})
+            body.append({"op": "shutdown", "ex": "x", "wait": True})
+        body.append({"op": "forget", "ex": ["x"]})
+        return body, "%s/unused-%s" % (k2, end)
     if how == "spawn_fails":
         # the worker process object cannot be pickled (unpicklable initargs): every submit raises, nothing may be left open
         k2 = rng.choice(["plain", "reusable"])
@@ -894,12 +951,12 @@ def _lifecycle(rng):
             body.append({"op": "submit", "ex": "x", "task": {"k": "nested", "kind": "plain", "kw": {"max_workers": 1, "timeout": None}, "sub": [{"k": "ok", "x": 1}], "then": "wait", "shutdown": True}})
         else:
             body.append({"op": "submit", "ex": "x", "task": benign_task(rng, slow_ok=False)})
-    big = how in ("broken", "killed") and rng.random() < 0.5
+    big = how in ("broken", "killed", "broken_dropped") and rng.random() < 0.5
     if big:
         # more call items in flight than the call queue's pipe can hold (64 KiB) when the workers go away
         for _ in range(rng.randint(3, 6)):
             body.append({"op": "submit", "ex": "x", "task": {"k": "sleep", "d": 0.2, "arg": ["blob", 60000]}})
-    if how == "broken":
+    if how in ("broken", "broken_dropped"):
         body.append({"op": "submit", "ex": "x", "task": t_breaking(rng)})
     if how == "killed":
         body.append({"op": "submit", "ex": "x", "task": {"k": "endless"}})
@@ -922,19 +979,20 @@ def _lifecycle(rng):
             body += [{"op": "shutdown", "ex": "x", "wait": False}, {"op": "join_mgr", "ex": "x"}]
         elif how == "with":
             body = [body[0], {"op": "with", "ex": "x", "body": body[1:]}]
-        elif how == "del":
+        elif how in ("del", "broken_dropped"):
+            # broken_dropped: a broken pool that is released without any shutdown() call
             body += [{"op": "del", "ex": "x"}, {"op": "join_mgr", "ex": "x"}]
     body.append({"op": "forget", "ex": ["x"]})
     return body, "%s/%s%s" % (kind, how, "+big" if big else "")
 
 
-def g_life(rng):
+def g_life(rng, force_how=None):
     """C20: the same history once (warm-up) then N more times; censuses must be equal."""
     nl = rng.choice([1, 1, 2, 3])
     body = []
     names = []
     for i in range(nl):
-        b, nm = _lifecycle(rng)
+        b, nm = _lifecycle(rng, how=force_how if i == 0 else None)
         body += b
         names.append(nm)
     N = rng.choice([2, 5, 20]) if nl == 1 else rng.choice([2, 5])
